@@ -746,6 +746,23 @@ class Program:
                 raise NotConst()
         # a small set of pure repo helpers, evaluated by folding their single return expression
         tgt = self.resolve_expr_static(m, fn)
+        if isinstance(tgt, ClassInfo):
+            fields = self.namedtuple_fields_of(tgt)
+            if fields is not None:
+                # a record of a named-tuple class of the repository: a tuple (that remembers its class and field names)
+                vals = []
+                for a in e.args:
+                    if isinstance(a, ast.Starred):
+                        vals.extend(list(F(a.value)))
+                    else:
+                        vals.append(F(a))
+                if any(k.arg is None for k in e.keywords) or len(vals) > len(fields) or any(k not in fields[len(vals):] for k in kw):
+                    raise NotConst()
+                for f_ in fields[len(vals):]:
+                    if f_ not in kw:
+                        raise NotConst()
+                    vals.append(kw[f_])
+                return self.nt_value_class(tgt, fields)(vals)
         if isinstance(tgt, FuncInfo) and isinstance(tgt.node, ast.FunctionDef):
             body = [s for s in tgt.node.body if not (isinstance(s, ast.Expr) and isinstance(s.value, ast.Constant))]
             simple = body and isinstance(body[-1], ast.Return) and body[-1].value is not None and all(
@@ -763,6 +780,31 @@ class Program:
             if len(a) in (3, 4) and all(isinstance(x, str) for x in a[:3]):
                 return re.sub(a[0], a[1], a[2])
         raise NotConst()
+
+    def namedtuple_fields_of(self, ci):
+        """field names when the repository class ci is a named tuple (class C(namedtuple("C", "a b")) / class C(NamedTuple): a: int ...), else None"""
+        cache = self.__dict__.setdefault("_nt_fields_cache", {})
+        if ci.qualname in cache:
+            return cache[ci.qualname]
+        out = None
+        for b in getattr(ci.node, "bases", []):
+            d = _dotted(b.func) if isinstance(b, ast.Call) else _dotted(b)
+            if isinstance(b, ast.Call) and d in ("namedtuple", "collections.namedtuple") and len(b.args) >= 2:
+                try:
+                    spec = self.fold(ci.module, b.args[1])
+                except NotConst:
+                    break
+                out = tuple(spec.replace(",", " ").split()) if isinstance(spec, str) else tuple(spec) if isinstance(spec, (list, tuple)) and all(isinstance(x, str) for x in spec) else None
+            elif d in ("NamedTuple", "typing.NamedTuple"):
+                out = tuple(s_.target.id for s_ in ci.node.body if isinstance(s_, ast.AnnAssign) and isinstance(s_.target, ast.Name))
+        cache[ci.qualname] = out
+        return out
+
+    def nt_value_class(self, ci, fields):
+        cache = self.__dict__.setdefault("_nt_value_classes", {})
+        if ci.qualname not in cache:
+            cache[ci.qualname] = type(ci.name, (tuple,), {"_fields": tuple(fields), "_cls_qual": ci.qualname, "__slots__": ()})
+        return cache[ci.qualname]
 
     def try_fold(self, m, e, cls=None, env=None, default=None):
         try:
